@@ -358,6 +358,19 @@ func (s RNS) Apply(env world.Env, mm mc.Model, ev string) mc.Step {
 				vs = append(vs, viol("non-owner-changes-nothing", "content via="+p[0],
 					"%s (not the owner %s) changed data/records of live %s", p[1], w.NameOf(ownerBefore), n))
 			}
+			// the owner's sale listing is the owner's: nobody else creates, re-prices or removes it (a purchase through
+			// it moves the name and is judged above)
+			if signer != ownerBefore && !ownerChanged {
+				sb, had := before.sales[n]
+				sa, still := after.sales[n]
+				switch {
+				case had && sb.Owner == ownerBefore && (!still || sa.Price != sb.Price || sa.Owner != sb.Owner):
+					vs = append(vs, viol("non-owner-changes-nothing", "listing via="+p[0], "%s (not the owner %s) changed the owner's listing of live %s: %s by %s -> %s by %s (still listed: %v)",
+						p[1], w.NameOf(ownerBefore), n, sb.Price, w.NameOf(sb.Owner), sa.Price, w.NameOf(sa.Owner), still))
+				case !had && still:
+					vs = append(vs, viol("non-owner-changes-nothing", "listing-created via="+p[0], "%s (not the owner %s) put live %s on sale at %s", p[1], w.NameOf(ownerBefore), n, sa.Price))
+				}
+			}
 			if signer != ownerBefore && na.Expires != nb.Expires && p[0] != "Register" {
 				vs = append(vs, viol("non-owner-changes-nothing", "expiry via="+p[0], "expiry of %s changed by non-owner", n))
 			}
